@@ -98,3 +98,51 @@ func VerifC15_ValueMatchers() {
 		sym.Reach("unmatched")
 	}
 }
+
+// VerifC15_PatternMatchers: the !!regex and !!glob operators for a small family
+// of concrete patterns on every value of up to 4 bytes: the result equals a
+// hand-written reference for that pattern (unanchored search for regex, whole
+// value for glob). The regexp and glob libraries are executed by the engine.
+//
+//verif:reach matched unmatched
+//verif:paths 200000
+//verif:steps 50000000
+func VerifC15_PatternMatchers() {
+	nv := sym.Choice("valueLen", 5)
+	v := sym.String("value", nv, nv)
+	var m valueMatch
+	var err error
+	var want bool
+	switch sym.Choice("pattern", 4) {
+	case 0: // regex, unanchored: a digit anywhere
+		m, err = valueMatcherConstructors["!!regex"]("[0-9]")
+		for i := 0; i < len(v); i++ {
+			if v[i] >= '0' && v[i] <= '9' {
+				want = true
+			}
+		}
+	case 1: // regex, anchored: ^ab?c$
+		m, err = valueMatcherConstructors["!!regex"]("^ab?c$")
+		want = v == "ac" || v == "abc"
+	case 2: // glob: a*c matches the whole value
+		m, err = valueMatcherConstructors["!!glob"]("a*c")
+		want = len(v) >= 2 && v[0] == 'a' && v[len(v)-1] == 'c'
+	case 3: // glob: ?b
+		m, err = valueMatcherConstructors["!!glob"]("?b")
+		want = len(v) == 2 && v[1] == 'b' && v[0] < 0x80 // '?' is one character: one byte only for ASCII
+		if len(v) >= 2 && v[0] >= 0x80 {
+			return // multi-byte first character: rune decoding of arbitrary bytes is the library's business
+		}
+	}
+	sym.Assert(err == nil, "valid pattern accepted")
+	if err != nil {
+		return
+	}
+	got := m.match(v)
+	sym.Assert(got == want, "pattern operator result equals its definition")
+	if got {
+		sym.Reach("matched")
+	} else {
+		sym.Reach("unmatched")
+	}
+}
